@@ -150,3 +150,60 @@ for _o in (True, False):
                                   stubs=["RectBivariateSpline -> table/jets", "fpol, fpol' symbols"], bounds="see META", wall_s=600))
 OBLIGATIONS.append(Ob("refusals", ob_refusals, tier="quick", family="calc_curvature", encodes=["hypnotoad.core.mesh:MeshRegion.calc_curvature"],
                       desc="x-y-derivative form refused when non-orthogonal; bxkappa and unknown types raise", bounds="-"))
+
+# ---------------------------------------------------------------------------------------------
+def _mk_ddy(has_lower, has_upper):
+    """MeshRegion.DDY (used by the 'curl(b/B) with x-y derivatives' formulation): second-order central differences in y at all four locations,
+    across region joins with the neighbour's adjacent value, one-sided over half a cell at a target"""
+    import types as _t
+    import numpy as _np
+    from harness.common import sym_numpy as _sn, stub_region as _sr, mk_mla as _mk, mla_mod as _mla, mesh_mod as _mesh, MultiLocationArray as _MLA
+
+    def body(env):
+        nx, ny = 1, 2
+        locs = ("centre", "xlow", "ylow", "corners")
+        regs = {}
+        dy = env.real("dy", pos=True)
+        with _sn(env, _mla, _mesh):
+            for rid in (0, 1, 2):
+                r = _sr(nx, ny, True)
+                r.myID = rid
+                r.fld = _mk(env, nx, ny, "f%d" % rid, locs, lo=-9, hi=9)
+                r.dy = _MLA(nx, ny)
+                r.dy.centre, r.dy.ylow, r.dy.xlow, r.dy.corners = dy, dy, dy, dy
+                regs[rid] = r
+            mid = regs[1]
+            mid.connections = {"inner": None, "outer": None, "lower": 0 if has_lower else None, "upper": 2 if has_upper else None}
+            mp = _t.SimpleNamespace(regions=regs)
+            for r in regs.values():
+                r.meshParent = mp
+            res = mid.DDY("#fld")
+        env.witness("DDY_returned")
+        f, lo, up = mid.fld, regs[0].fld, regs[2].fld
+        for j in range(ny):
+            env.claim_eq("centre=(ylow[j+1]-ylow[j])/dy", res.centre[0, j], (f.ylow[0, j + 1] - f.ylow[0, j]) / dy)
+            for i in range(nx + 1):
+                env.claim_eq("xlow=(corners[j+1]-corners[j])/dy", res.xlow[i, j], (f.corners[i, j + 1] - f.corners[i, j]) / dy)
+        env.claim_eq("ylow_interior=(centre[j]-centre[j-1])/dy", res.ylow[0, 1], (f.centre[0, 1] - f.centre[0, 0]) / dy)
+        for i in range(nx + 1):
+            env.claim_eq("corners_interior=(xlow[j]-xlow[j-1])/dy", res.corners[i, 1], (f.xlow[i, 1] - f.xlow[i, 0]) / dy)
+        if has_lower:
+            env.claim_eq("ylow_lower_face_across_regions", res.ylow[0, 0], (f.centre[0, 0] - lo.centre[0, -1]) / dy)
+            env.claim_eq("corners_lower_face_across_regions", res.corners[0, 0], (f.xlow[0, 0] - lo.xlow[0, -1]) / dy)
+        else:
+            env.claim_eq("ylow_lower_face_one_sided_half_cell", res.ylow[0, 0], (f.centre[0, 0] - f.ylow[0, 0]) / (dy / 2))
+            env.claim_eq("corners_lower_face_one_sided_half_cell", res.corners[0, 0], (f.xlow[0, 0] - f.corners[0, 0]) / (dy / 2))
+        if has_upper:
+            env.claim_eq("ylow_upper_face_across_regions", res.ylow[0, -1], (up.centre[0, 0] - f.centre[0, -1]) / dy)
+            env.claim_eq("corners_upper_face_across_regions", res.corners[0, -1], (up.xlow[0, 0] - f.xlow[0, -1]) / dy)
+        else:
+            env.claim_eq("ylow_upper_face_one_sided_half_cell", res.ylow[0, -1], (f.ylow[0, -1] - f.centre[0, -1]) / (dy / 2))
+            env.claim_eq("corners_upper_face_one_sided_half_cell", res.corners[0, -1], (f.corners[0, -1] - f.xlow[0, -1]) / (dy / 2))
+    return body
+
+
+for _l in (False, True):
+    for _u in (False, True):
+        OBLIGATIONS.append(Ob("ddy_lower%d_upper%d" % (_l, _u), _mk_ddy(_l, _u), tier="quick", family="DDY", encodes=["hypnotoad.core.mesh:MeshRegion.DDY"],
+                              desc="central y-differences at centre/xlow/ylow/corners; joins use the neighbour's adjacent value, targets a half-cell one-sided difference",
+                              bounds="nx=1, ny=2, three regions stacked in y, all values and dy symbolic"))
